@@ -27,6 +27,8 @@ import (
 type eventCh[T any] struct {
 	id int
 	ch chan<- T
+	// closeEventCh is closed when the subscriber's forwarder is leaving, so that a delivery blocked on its full buffer is released
+	closeEventCh chan struct{}
 }
 
 // Batcher is a one to many event batcher. It batches events and sends them to
@@ -83,15 +85,19 @@ func (b *Batcher[K, T]) subscribe(ctx context.Context, ch chan<- T) {
 	id := b.currentID
 	b.currentID++
 	bufferedCh := make(chan T, 50)
+	closeEventCh := make(chan struct{})
 	b.eventChs = append(b.eventChs, &eventCh[T]{
-		id: id,
-		ch: bufferedCh,
+		id:           id,
+		ch:           bufferedCh,
+		closeEventCh: closeEventCh,
 	})
 
 	b.wg.Add(1)
 	go func() {
 		defer func() {
 			verifPoint("batcher.fwd.exit", "id", id)
+			// Signal the departure before taking the lock: execute may be holding it while blocked on this subscriber's full buffer
+			close(closeEventCh)
 			b.lock.Lock()
 			close(ch)
 			for i, eventCh := range b.eventChs {
@@ -133,6 +139,7 @@ func (b *Batcher[K, T]) execute(i *item[K, T]) {
 		verifPoint("batcher.exec.next", "id", ev.id)
 		select {
 		case ev.ch <- i.value:
+		case <-ev.closeEventCh:
 		case <-b.closeCh:
 		}
 	}
